@@ -435,6 +435,92 @@ def _mk_paralog(rng, c, spec):
     return True
 
 
+def _mk_nf_ends(rng, c, spec):
+    """Incomplete CDS (cds_start_NF and / or mRNA_end_NF, 70 % each): 1-3 records on the last bases before the open 3' end (among them
+    records ending exactly on the boundary of the final full codon) or on the first codons of the open 5' end, preferring
+    substitutions that create K / R / a stop codon (a peptide with a confirmed C-terminus right next to the open end), plus 0-2
+    records anywhere."""
+    from harness.model import seqmodel as sm
+    c.ref = refgen.make_reference(rng, n_genes=1, coding_p=1.0, sec_p=0.1, nf_p=0.7, min_exons=1, max_exons=4, exon_len=(30, 120))
+    tx = c.ref.genes[0].txs[0]
+    if not tx.coding or not (tx.mrna_end_nf or tx.cds_start_nf):
+        return False
+    ts_ = c.ref.tx_seq(tx)
+    gs_ = c.ref.gene_seq(tx.gene)
+    vs = {}
+    for _ in range(rng.randint(1, 3)):
+        if tx.mrna_end_nf and (not tx.cds_start_nf or rng.random() < 0.65):
+            t = tx.cds[1] - rng.choice([1, 2, 3, 4, 4, 4, 5, 6, 7, 8, 9])
+        else:
+            t = tx.cds[0] + rng.choice([0, 1, 2, 3, 4, 5, 6, 7])
+        if not 0 <= t < tx.tx_len():
+            continue
+        v = gvfgen.rand_small(rng, c.ref, tx, tx.tx2gene(t), max_indel=2, snv_p=0.7)
+        if rng.random() < 0.6 and tx.cds[0] <= t < tx.cds[1]:
+            c0 = tx.cds[0] + 3 * ((t - tx.cds[0]) // 3)
+            g_ = tx.tx2gene(t)
+            for b in rng.sample('ACGT', 4):
+                cod = ts_[c0:t] + b + ts_[t + 1:c0 + 3]
+                if b != ts_[t] and len(cod) == 3 and sm.translate(cod) in 'KR*' and sm.translate(ts_[c0:c0 + 3]) not in 'KR*':
+                    v = Small(tx.gene, tx, g_, gs_[g_], b)
+                    break
+        if v is not None:
+            vs[v.id] = v
+    if not vs:
+        return False
+    for v in gvfgen.make_small_variants(rng, c.ref, tx, rng.randint(0, 2)):
+        vs.setdefault(v.id, v)
+    c.files = [('v1.gvf', 'gSNP', sorted(vs.values(), key=lambda v: (v.gstart, v.gend, v.alt)))]
+    return True
+
+
+def _mk_nc_as(rng, c, spec):
+    """NON-CODING transcript (every ATG opens an ORF) with an alternative-splicing record whose length change is mostly not a
+    multiple of three, a start codon planted 4-16 nt in front of the event (so that the junction lies in the cleavage product
+    of the ORF's first residues) and 1-3 small records 8-90 nt behind the event: peptides behind the junction depend on the
+    splicing record without carrying it in their own residues."""
+    c.ref = refgen.make_reference(rng, n_genes=1, coding_p=0.0, min_exons=2, max_exons=4, exon_len=(45, 130), intron_len=(20, 70))
+    tx = c.ref.genes[0].txs[0]
+    if tx.coding:
+        return False
+    asv = None
+    for _ in range(30):
+        a = _rand_as(rng, c.ref, tx)
+        if a is None:
+            continue
+        d = -(a.ge - a.gs) if a.kind == 'Deletion' else ((a.de - a.ds) if a.kind == 'Insertion' else (a.de - a.ds) - (a.ge - a.gs))
+        t0 = tx.gene2tx(a.anchor) + 1 if a.kind == 'Insertion' else tx.gene2tx(a.gs)
+        if t0 is None or t0 < 12:
+            continue
+        if d % 3 == 0 and rng.random() < 0.8:
+            continue
+        asv = a
+        break
+    if asv is None:
+        return False
+    if rng.random() < 0.85:
+        tp = t0 - rng.randint(4, 16)
+        if tp >= 0:
+            for k, b in enumerate('ATG'):
+                c.ref.set_gene_base(tx.gene, tx.tx2gene(tp + k), b)
+    g_after = asv.anchor + 1 if asv.kind == 'Insertion' else asv.ge
+    after = [t for t in range(tx.tx_len()) if tx.tx2gene(t) >= g_after]
+    if not after:
+        return False
+    vs = {}
+    for _ in range(rng.randint(1, 3)):
+        t = after[0] + rng.randint(8, 90)
+        if t >= tx.tx_len() - 2:
+            continue
+        v = gvfgen.rand_small(rng, c.ref, tx, tx.tx2gene(t), max_indel=2, snv_p=0.8)
+        if v is not None:
+            vs[v.id] = v
+    if not vs:
+        return False
+    c.files = [('v1.gvf', 'gSNP', sorted(vs.values(), key=lambda v: (v.gstart, v.gend, v.alt))), ('as.gvf', 'AltSplice', [asv])]
+    return True
+
+
 def _mk_nc_stoploss(rng, c, spec):
     """Non-coding transcript (every ATG opens an ORF) with a planted ORF whose start codon is CREATED by an SNV (start gain) or is
     a reference ATG, followed by one or two in-frame stop codons that SNVs REMOVE (stop loss), with cleavable sequence behind
